@@ -656,6 +656,70 @@ def r03_17(run, model):
                        "output declares `var v []T` with T undefined")
 
 
+def r03_18(run, model):
+    run.rule("R03.18", "dyn-safety looks inside types: in validate_dyn_trait the tests that keep `Self` out of the result type and out of the "
+                       "non-receiver parameters use a structural predicate (one that recurses through the type), not a test of the outermost "
+                       "constructor - `(Self, int32)` mentions Self too, and its placeholder would reach the IR through a dyn call")
+    UTIL = "crates/compiler/src/typer/util.rs"
+    f = model.fn("validate_dyn_trait", UTIL)
+    fns = {g.name: g for g in model.fns(UTIL) if g.body is not None}
+    def structural(name):
+        g = fns.get(name)
+        return g is not None and any(True for _ in S.calls(g.body, name))
+    n = 0
+    for iff in S.find(f.body, "If"):
+        cond = iff["cond"]
+        calls = [c for c in S.walk(cond) if c["k"] == "Call" and re.search(r"self", S.callee_name(c) or "", re.I)]
+        if not calls:
+            continue
+        ct = S.norm_ws(run.facts.text(UTIL, cond["sp"]))
+        msg = S.norm_ws(run.facts.text(UTIL, iff["then"]["sp"]))
+        receiver = "first()" in ct or "receiver must be" in msg
+        if receiver:
+            continue  # the receiver itself has to *be* Self
+        n += 1
+        name = S.callee_name(calls[0])
+        what = "return type" if "ret" in ct else "non-receiver parameter"
+        run.ob("R03.18", f"validate_dyn_trait|Self is searched for inside the {what}", structural(name), site(UTIL, iff["sp"]),
+               f"test: {ct[:70]}; `{name}` recurses through the type: {structural(name)}",
+               witness="trait Dup { fn both(Self) -> (Self, int32); } used as dyn: the call is typed (Self, int32), the Go declares "
+                       "`type Tuple2_Self_int32 struct { _0 Self … }`")
+    run.floor("dyn-safety tests on types other than the receiver", n, 2)
+
+
+def r03_19(run, model):
+    run.rule("R03.19", "a closure checked against a function type agrees with it parameter by parameter: in check_closure_expr every written "
+                       "parameter annotation is related to the expected parameter type by a constraint (or unification), and the closure's "
+                       "recorded type is built from the types its parameters were given")
+    f = model.fn("check_closure_expr", CHECK, impl="Typer")
+    n = 0
+    for loop in S.find(f.body, "For"):
+        it = S.norm_ws(run.facts.text(CHECK, loop["iter"]["sp"]))
+        if "zip(" not in it or "expected" not in it:
+            continue
+        binds = S.pat_bindings(loop["pat"])
+        exp = [b for b in binds if "expected" in b]
+        if not exp:
+            continue
+        n += 1
+        rel = [c for c in S.walk(loop["body"]) if c["k"] in ("Call", "MethodCall") and (S.callee_name(c) or "") in ("push_constraint", "unify")
+               and set(exp) & S.idents(c)]
+        run.ob("R03.19", "check_closure_expr|an annotated parameter is equated with the expected parameter type", bool(rel), site(CHECK, loop["sp"]),
+               f"constraints mentioning {exp} in the parameter loop: {len(rel)}",
+               witness="fn apply(f: (int32) -> int32, x: int32) .. apply(|s: string| string_len(s), 3) is accepted: Core has |s: string| at type (int32) -> int32")
+    if n == 0:
+        raise AnalysisIncomplete("check_closure_expr: loop over params.zip(expected_params) not found")
+    clos = [st for st in S.walk(f.body) if st["k"] == "Struct" and st["segs"][-1] == "EClosure"]
+    for st in clos:
+        ty = next((fl["expr"] for fl in st["fields"] if fl["name"] == "ty"), None)
+        if ty is None:
+            continue
+        t = S.norm_ws(run.facts.text(CHECK, ty["sp"]))
+        copied = re.fullmatch(r"expected(\.clone\(\))?", t) is not None
+        run.ob("R03.19", "check_closure_expr|the closure's type is built from its parameters and body", not copied, site(CHECK, st["sp"]), f"ty: {t[:60]}",
+               witness="with `ty: expected.clone()` the trailing equation of check_expr compares expected with itself")
+
+
 def run(run, model):
     run.try_rule(r03_1, model)
     run.try_rule(r03_2, model)
@@ -672,6 +736,8 @@ def run(run, model):
     run.try_rule(r03_15, model)
     run.try_rule(r03_16, model)
     run.try_rule(r03_17, model)
+    run.try_rule(r03_18, model)
+    run.try_rule(r03_19, model)
     from rules import c17
     run.try_rule(c17.r17_9, model)
     run.try_rule(c07.r07_4, model)
